@@ -41,12 +41,15 @@ Check c09_plu_reconstruct : forall (n : nat) (A L U P : mat R), plu n n A = Ok (
   forall i j, (i < n)%nat -> (j < n)%nat -> mprod n L U i j = mprod n P A i j.
 Print Assumptions c09_plu_reconstruct.
 
-(* PLU: every pivot of a returned U is at least EPSILON in absolute value, in particular non-zero *)
+(* PLU (after the repair d0c7441): every pivot of a returned U exceeds the threshold
+   EPSILON * n * max|a_ij| (>= 0) in absolute value, in particular it is non-zero *)
 Theorem c09_plu_pivots : forall (n : nat) (A L U P : mat R), plu n n A = Ok (L, U, P) ->
-  forall i, (i < n)%nat -> neps <= Rabs (U i i) /\ U i i <> 0.
+  forall i, (i < n)%nat ->
+    0 <= plu_threshold n A /\ plu_threshold n A < Rabs (U i i) /\ U i i <> 0.
 Proof. exact Proofs.PLU.c09_plu_pivots. Qed.
 Check c09_plu_pivots : forall (n : nat) (A L U P : mat R), plu n n A = Ok (L, U, P) ->
-  forall i, (i < n)%nat -> neps <= Rabs (U i i) /\ U i i <> 0.
+  forall i, (i < n)%nat ->
+    0 <= plu_threshold n A /\ plu_threshold n A < Rabs (U i i) /\ U i i <> 0.
 Print Assumptions c09_plu_pivots.
 
 (* PLU: a singular matrix (one with a non-trivial left null vector: zero row, repeated
